@@ -20,6 +20,8 @@
 (*             (from) and of the image after set_up (after); variant 0 =     *)
 (*             fresh objects, initial positivity enforcement as configured,  *)
 (*             1 = fresh objects, enforcement off, 2 = same object continues *)
+(*             3 = (k = 0) the same objects set up and run again from the    *)
+(*             start image after a set_up and run with other subsets         *)
 (*   Cont      an image saved by the resumed run after sub-iteration j       *)
 (* Unexplained lines are collected with a class: "new" (violation),          *)
 (* "domain" (the step is outside the range in which TLC can evaluate the     *)
@@ -99,7 +101,7 @@ StepClass(r) ==
 NoRes == [k |-> -1, variant |-> -1, changed |-> FALSE]
 ResumeShape(r) ==
   /\ I # NoInst /\ ready /\ I.mode = "free" /\ Has(r, "err") /\ ~r.err
-  /\ r.variant \in 0..2 /\ r.k \in DOMAIN saved /\ r.k >= 1 /\ r.k < I.K
+  /\ r.variant \in 0..3 /\ r.k \in DOMAIN saved /\ (IF r.variant = 3 THEN r.k = 0 ELSE r.k >= 1) /\ r.k < I.K
   /\ BitsOk(r, "fromh", "froml") /\ BitsOk(r, "afterh", "afterl")
 ResumeClass(r) ==
   IF ~ResumeShape(r) THEN "new"
@@ -109,7 +111,7 @@ ResumeClass(r) ==
   \* estimate to small positive ones" when the positivity condition is enforced (variant 0: as configured); leaving
   \* them alone on a resume is accepted as well (that is what the restart clause needs, see notes/C07-fix-1.diff)
   ELSE IF \A v \in 1..sys.nv :
-            IF Positive(r.fromh[v], r.froml[v]) \/ ~(r.variant = 0 /\ I.eip)
+            IF Positive(r.fromh[v], r.froml[v]) \/ ~(r.variant \in {0, 3} /\ I.eip)
             THEN r.afterh[v] = r.fromh[v] /\ r.afterl[v] = r.froml[v]
             ELSE Positive(r.afterh[v], r.afterl[v]) \/ (r.afterh[v] = r.fromh[v] /\ r.afterl[v] = r.froml[v])
        THEN "ok" ELSE "new"
